@@ -7,6 +7,8 @@ import (
 	"math/big"
 	"os"
 	"path/filepath"
+	"regexp"
+	"strings"
 	"sync"
 	"testing"
 	"time"
@@ -72,12 +74,13 @@ func isKnownTx(err error) bool {
 }
 
 type c13E2EOpt struct {
-	N            int   `json:"n"`
-	Budget       int   `json:"block_budget"`
-	StartDelay   []int `json:"start_delay_blocks"` // per member
-	CancelMember int   `json:"cancelled_member"`   // -1: nobody
-	CancelAt     int   `json:"cancelled_at_block"` // blocks after the start
-	RestartAfter int   `json:"restarted_after_blocks"`
+	N            int    `json:"n"`
+	Budget       int    `json:"block_budget"`
+	StartDelay   []int  `json:"start_delay_blocks"`       // per member
+	Stage        string `json:"prepared_state,omitempty"` // see c13Prepare; "": fresh chain
+	CancelMember int    `json:"cancelled_member"`         // -1: nobody
+	CancelAt     int    `json:"cancelled_at_block"`       // blocks after the start
+	RestartAfter int    `json:"restarted_after_blocks"`
 }
 
 type c13E2E struct {
@@ -85,6 +88,7 @@ type c13E2E struct {
 	Blocks      int            `json:"blocks_used"`
 	Returned    map[int]string `json:"deploy_returned"` // member -> "" (nil) or error
 	Cancelled   string         `json:"cancelled_run_returned,omitempty"`
+	Prepared    map[string]any `json:"prepared_state_observed,omitempty"`
 	Notary      bool           `json:"notary_role_is_committee"`
 	Alphabet    bool           `json:"alphabet_role_is_committee"`
 	NNSID1      bool           `json:"nns_has_id_1"`
@@ -257,6 +261,126 @@ func (x *c13Net) resolveName(aux *c13Chain, nns util.Uint160, name string) *stat
 	return x.bc.GetContractState(h)
 }
 
+// c13StageOrder is the order in which Deploy synchronises the system contracts
+// (after NNS), read from the generated Coq parameters when available.
+func c13StageOrder() []string {
+	def := []string{"proxy", "audit", "netmap", "balance", "reputation", "neofsid", "container", "alphabet"}
+	b, err := os.ReadFile(filepath.Join(envOr("VERIF_COQ", "/verif/coq"), "Gen", "Params.v"))
+	if err != nil {
+		return def
+	}
+	m := regexp.MustCompile(`p_deploy_stage_order : list string := \[([^\]]*)\]`).FindSubmatch(b)
+	if m == nil {
+		return def
+	}
+	var out []string
+	for _, q := range regexp.MustCompile(`"([a-z0-9]+)"`).FindAllSubmatch(m[1], -1) {
+		out = append(out, string(q[1]))
+	}
+	if len(out) < 2 {
+		return def
+	}
+	return out
+}
+
+func (x *c13Net) deployedContracts() int {
+	k := 0
+	for id := int32(1); id < 200; id++ {
+		if _, err := x.bc.GetContractScriptHash(id); err != nil {
+			break
+		}
+		k++
+	}
+	return k
+}
+
+// prepare brings a fresh chain into an intermediate state of the deployment
+// (a stage boundary), using the real code only, and reports what it reached:
+//
+//	nns-only       NNS deployed (real initNNSContract of the leader), nothing else
+//	notary-only    NNS + the real Notary bootstrap (enableNotary of every member): P2PNotary designated, NeoFSAlphabet not
+//	alphabet-only  NeoFSAlphabet designated by the committee, P2PNotary not, nothing deployed
+//	contracts:K    deploy.Deploy of every member, all stopped at the first block where both roles are
+//	               designated and K contracts besides NNS exist
+func (x *c13Net) prepare(fs []contracts.Contract, stage string) map[string]any {
+	switch {
+	case stage == "nns-only":
+		x.deployNNS()
+	case stage == "notary-only":
+		x.deployNNS()
+		ctx, cancel := context.WithCancel(context.Background())
+		var wg sync.WaitGroup
+		for m := 0; m < x.n; m++ {
+			wg.Add(1)
+			prm := x.prm(m)
+			go func() { defer wg.Done(); _ = deploy.VerifEnableNotary(ctx, prm) }()
+		}
+		back := make(chan struct{})
+		go func() { wg.Wait(); close(back) }()
+		start := x.bc.BlockHeight()
+	loop:
+		for int(x.bc.BlockHeight()-start) < 200 {
+			select {
+			case <-back:
+				break loop
+			case <-time.After(c13BlockMs * time.Millisecond):
+				x.addBlock()
+			}
+		}
+		cancel()
+		select {
+		case <-back:
+		case <-time.After(3 * time.Second):
+		}
+	case stage == "alphabet-only":
+		var ks []any
+		for _, k := range x.committee {
+			ks = append(ks, k.Bytes())
+		}
+		x.exec.CommitteeInvoker(x.exec.NativeHash(x.t, "RoleManagement")).Invoke(x.t, stackitem.Null{}, "designateAsRole", int64(noderoles.NeoFSAlphabet), ks)
+		x.addBlock()
+	case strings.HasPrefix(stage, "contracts:"):
+		var k int
+		fmt.Sscanf(stage, "contracts:%d", &k)
+		x.runDeployUntil(fs, 600, func() bool {
+			return x.roleIsCommittee(noderoles.P2PNotary) && x.roleIsCommittee(noderoles.NeoFSAlphabet) && x.deployedContracts() >= 1+k
+		})
+	default:
+		x.t.Fatalf("unknown prepared state %q", stage)
+	}
+	return map[string]any{"state": stage, "height": x.bc.BlockHeight(), "notary_role_is_committee": x.roleIsCommittee(noderoles.P2PNotary),
+		"alphabet_role_is_committee": x.roleIsCommittee(noderoles.NeoFSAlphabet), "deployed_contracts": x.deployedContracts()}
+}
+
+// runDeployUntil runs Deploy for every member and stops all of them (context
+// cancellation, as a process stop does) at the first block where stop() holds.
+func (x *c13Net) runDeployUntil(fs []contracts.Contract, budget int, stop func() bool) {
+	ctx, cancel := context.WithCancel(context.Background())
+	var wg sync.WaitGroup
+	for m := 0; m < x.n; m++ {
+		wg.Add(1)
+		prm := x.deployPrm(m, fs)
+		go func() { defer wg.Done(); _ = deploy.Deploy(ctx, prm) }()
+	}
+	back := make(chan struct{})
+	go func() { wg.Wait(); close(back) }()
+	start := x.bc.BlockHeight()
+loop:
+	for int(x.bc.BlockHeight()-start) < budget && !stop() {
+		select {
+		case <-back:
+			break loop
+		case <-time.After(c13BlockMs * time.Millisecond):
+			x.addBlock()
+		}
+	}
+	cancel()
+	select {
+	case <-back:
+	case <-time.After(3 * time.Second):
+	}
+}
+
 func c13RunE2E(t testing.TB, opt c13E2EOpt, salt int64) *c13E2E {
 	n := opt.N
 	x := newC13Net(t, n, salt)
@@ -265,6 +389,12 @@ func c13RunE2E(t testing.TB, opt c13E2EOpt, salt int64) *c13E2E {
 	fs, err := contracts.GetFS()
 	require.NoError(t, err)
 	res := &c13E2E{Opt: opt, Names: map[string]int{}}
+	if opt.Stage != "" {
+		res.Prepared = x.prepare(fs, opt.Stage)
+		x.mu.Lock()
+		x.sent, x.notaryReqs = nil, 0
+		x.mu.Unlock()
+	}
 	res.Returned, res.Cancelled, res.Blocks = x.runDeploy(fs, opt)
 	res.Notary = x.roleIsCommittee(noderoles.P2PNotary)
 	res.Alphabet = x.roleIsCommittee(noderoles.NeoFSAlphabet)
@@ -375,7 +505,27 @@ func c13EndToEnd(c *c13) (string, string) {
 		{c13E2EOpt{N: 3, Budget: 500, CancelMember: 1 + r.Intn(2), CancelAt: 5 + r.Intn(40), RestartAfter: 1 + r.Intn(6)}, "a signer is stopped and restarted"},
 		{c13E2EOpt{N: 4, Budget: 700, CancelMember: 0, CancelAt: 5 + r.Intn(40), RestartAfter: 1 + r.Intn(6), StartDelay: delays(4, 4)}, "the leader is stopped and restarted"},
 	}
+	// restart at every stage boundary: Deploy started on chains prepared in each intermediate state
+	order := c13StageOrder()
+	stages := func(n int) []string {
+		last := len(order) - 1 + n - 1 // everything but the last Alphabet contract
+		return []string{"nns-only", "notary-only", "alphabet-only", "contracts:1", fmt.Sprintf("contracts:%d", len(order)/2), fmt.Sprintf("contracts:%d", last)}
+	}
+	for _, st := range []string{"notary-only", "alphabet-only", fmt.Sprintf("contracts:%d", len(order)/2)} {
+		scs = append(scs, sc{c13E2EOpt{N: 1, Budget: 300, CancelMember: -1, Stage: st}, "started on a prepared chain: " + st})
+	}
+	for _, st := range stages(3) {
+		scs = append(scs, sc{c13E2EOpt{N: 3, Budget: 400, CancelMember: -1, Stage: st}, "started on a prepared chain: " + st})
+	}
 	if Tier() == "thorough" {
+		for _, n := range []int{2, 4, 7} {
+			for _, st := range stages(n) {
+				scs = append(scs, sc{c13E2EOpt{N: n, Budget: 700, CancelMember: -1, Stage: st}, "started on a prepared chain: " + st})
+			}
+		}
+		for k := 2; k < len(order)-1+3-1; k++ {
+			scs = append(scs, sc{c13E2EOpt{N: 3, Budget: 500, CancelMember: -1, Stage: fmt.Sprintf("contracts:%d", k)}, "started on a prepared chain"})
+		}
 		for n := 3; n <= 7; n++ {
 			scs = append(scs, sc{c13E2EOpt{N: n, Budget: 900, CancelMember: r.Intn(n), CancelAt: 3 + r.Intn(60), RestartAfter: 1 + r.Intn(8), StartDelay: delays(n, 8)}, "thorough"})
 			late := delays(n, 3)
